@@ -73,6 +73,10 @@ def normalise(c):
     if c and c[0] == 'ParamOp' and ('op', ('str', 'fill_time_series')) in c:
         # `fill_time_series(x)` == `fill_time_series(x, all)` (Interpreter: mode = … if len(params) == 1 else "all")
         return _norm_fts(c)
+    if c and c[0] == 'ParamOp' and ('op', ('str', 'having')) in c:
+        # the constructor stores the SOURCE TEXT of a having clause in an extra attribute `expr` (used in messages only):
+        # it echoes spelling (`0.70` vs `0.7`, blanks), not structure
+        return tuple([c[0]] + [(k, normalise(v)) for k, v in c[1:] if k != 'expr'])
     if c and c[0] == 'HRuleset':
         # create_ast() topologically sorts the rules of a hierarchical ruleset (DAG.sort_hr_rules); any such
         # order denotes the same ruleset, so rules are compared as a multiset
